@@ -271,5 +271,25 @@ func rereadStable(format string, doc []byte, o readOpts, first *astisub.Subtitle
 	if got := canon(again); got != want {
 		return fmt.Sprintf("the same document reads differently the second time (in between, the caller edited the first result and the process read other %s documents)\n--- first ---\n%s\n--- second ---\n%s", format, clip(want, 900), clip(got, 900))
 	}
+	// the file-level opener is the same reader behind a file name, options included (one document in three)
+	if strHash(string(doc))%3 == 0 {
+		dir, err := os.MkdirTemp("", "reread")
+		if err != nil {
+			return ""
+		}
+		defer os.RemoveAll(dir)
+		ext := map[string][]string{"srt": {"srt", "SRT"}, "vtt": {"vtt", "Vtt"}, "ssa": {"ssa", "ass", "ASS"}, "ttml": {"ttml", "TTML"}, "stl": {"stl", "STL"}, "ts": {"ts"}}[format]
+		p := filepath.Join(dir, "in."+ext[len(doc)%len(ext)])
+		if os.WriteFile(p, doc, 0o644) != nil {
+			return ""
+		}
+		opened, err := astisub.Open(astisub.Options{Filename: p, STL: astisub.STLOptions{IgnoreTimecodeStartOfProgramme: o.IgnoreTCP}, Teletext: astisub.TeletextOptions{Page: o.Page, PID: o.PID}})
+		if err != nil {
+			return fmt.Sprintf("Open(%s) fails on a document the %s reader accepts: %v", filepath.Base(p), format, err)
+		}
+		if got := canon(opened); got != want {
+			return fmt.Sprintf("Open(%s) with options %+v returns something else than the %s reader given the same bytes and options\n--- reader ---\n%s\n--- Open ---\n%s", filepath.Base(p), o, format, clip(want, 900), clip(got, 900))
+		}
+	}
 	return ""
 }
